@@ -237,3 +237,33 @@ pub proof fn lemma_simple_core(src: Seq<char>, lo: int, hi: int)
         assert(p[x + 1] == src[lo + x + 1]);
     }
 }
+
+// ---- infix comparison and `=`: what a subgoal written with an infix means (C14, C06, C13 at the surface) ------------------------
+pub uninterp spec fn cmp_infix(text: Seq<char>) -> (Infix, usize);                             // check_infix (T10)
+pub open spec fn is_cmp(i: Infix) -> bool {
+    i == Infix::Unify || i == Infix::Equal || i == Infix::LessThan || i == Infix::LessThanOrEqual || i == Infix::GreaterThan || i == Infix::GreaterThanOrEqual
+}
+pub open spec fn cmp_name(i: Infix) -> Seq<char> {
+    match i {
+        Infix::Unify => "unify"@,
+        Infix::Equal => "equal"@,
+        Infix::LessThan => "less_than"@,
+        Infix::LessThanOrEqual => "less_than_or_equal"@,
+        Infix::GreaterThan => "greater_than"@,
+        _ => "greater_than_or_equal"@,
+    }
+}
+// the built-in predicates that take arguments
+pub open spec fn arg_builtin(f: Seq<char>) -> bool {
+    f == "print"@ || f == "append"@ || f == "functor"@ || f == "include"@ || f == "exclude"@ || f == "print_list"@ || f == "unify"@ || f == "equal"@
+    || f == "less_than"@ || f == "less_than_or_equal"@ || f == "greater_than"@ || f == "greater_than_or_equal"@ || f == "count"@
+}
+// what parse_subgoal returns for a text with a comparison infix: the built-in predicate of that name on the two operands, each parsed on its own
+pub open spec fn infix_goal_ok(p: Seq<char>, r: Result<Goal, String>) -> bool {
+    let s = trimmed(p);
+    let ix = cmp_infix(s);
+    (s.len() > 0 && s != "!"@ && s != "fail"@ && s != "nl"@ && is_cmp(ix.0)) ==> match operands(s, ix.1, 2) {
+        Err(e) => r == Err::<Goal, String>(e),
+        Ok(lr) => r matches Ok(Goal::BuiltInGoal(b)) && b.functor@ == cmp_name(ix.0) && (b.terms matches Some(t) && t@ == seq![lr.0, lr.1]),
+    }
+}
